@@ -18,6 +18,10 @@ import (
 // activity counts events of the harness API; the coordinator treats the run as quiet when it stops moving.
 var activity atomic.Int64
 
+var sleepingSince atomic.Int64 // real ms since the coordinator started waiting for virtual time; 0: not waiting
+
+func realNowMs() int64 { return realNow() / 1000 }
+
 func realNow() int64 {
 	var tv syscall.Timeval
 	syscall.Gettimeofday(&tv)
@@ -69,6 +73,24 @@ func RunReplay(t *testing.T, table map[string]func()) {
 		emit(Outcome{Status: "diverged", Note: "no harness " + r.Harness})
 	}
 	Tick = func() { activity.Add(1) }
+	// Watchdog in real time, outside the bubble: virtual time only advances when every goroutine of the
+	// bubble is durably blocked, and a goroutine waiting for a mutex never is. If the coordinator's sleep
+	// does not return within a few real seconds the run is wedged on a lock: report it as a deadlock.
+	go func() {
+		for {
+			time.Sleep(200 * time.Millisecond) // real time: this goroutine is not part of the bubble
+			since := sleepingSince.Load()
+			if since != 0 && realNowMs()-since > 4000 {
+				fails, trace, known := Results()
+				o := Outcome{Status: "deadlock", Fails: fails, Trace: trace, Known: known,
+					Note: "virtual time cannot advance: a goroutine is blocked on a lock; parked: " + Parked()}
+				if len(fails) > 0 {
+					o.Status = "assert"
+				}
+				emit(o)
+			}
+		}
+	}()
 	synctest.Test(t, func(t *testing.T) {
 		Begin(time.Now())
 		out := Outcome{Status: "pass"}
@@ -150,7 +172,9 @@ func RunReplay(t *testing.T, table map[string]func()) {
 				out.Note += fmt.Sprintf(" stuck: next gate %q not reached; parked: %s", label, Parked())
 				break loop
 			}
+			sleepingSince.Store(realNowMs())
 			time.Sleep(time.Hour) // let virtual timers fire
+			sleepingSince.Store(0)
 		}
 		fails, trace, known := Results()
 		out.Fails, out.Trace, out.Known = fails, trace, known
